@@ -1403,10 +1403,18 @@ func (fv *FuncVerifier) execRange(st *State, env *Env, x *ast.RangeStmt, label s
 					))
 					bindIter(st, kobj, off)
 					bindIter(st, vobj, c)
-					outs := fv.execBlock(st, env, x.Body.List)
-					for _, o := range outs {
-						if o.kind == okNormal || (o.kind == okContinue && (o.label == "" || o.label == label)) {
-							o.st.ghost[offName] = Add(off, wd)
+					// one path per encoded width, the next offset being off+1 .. off+4 with a LITERAL increment:
+					// arguments of recursive spec functions then normalise syntactically instead of relying on the
+					// solver to propagate arithmetic equalities into the e-graph (a source of unstable proofs)
+					var outs []Outcome
+					for k := 1; k <= 4; k++ {
+						sk := st.Clone()
+						sk.Assume(App(SBool, "=", wd, IntLit(int64(k))))
+						for _, o := range fv.execBlock(sk, env, x.Body.List) {
+							if o.kind == okNormal || (o.kind == okContinue && (o.label == "" || o.label == label)) {
+								o.st.ghost[offName] = Add(off, IntLit(int64(k)))
+							}
+							outs = append(outs, o)
 						}
 					}
 					return incr(outs)
